@@ -86,7 +86,12 @@ def impl_hier_compile(case):
     from hier import to_qref
 
     flags = {"inexact": False}
-    res = compile_routine(to_qref(case["routine"]))
+    kw = {}
+    if case.get("derived_none"):
+        # derived resources whose calculator says "not applicable" (None) for every routine: nothing may change
+        kw["derived_resources"] = [{"name": nm, "type": "other", "calculate": (lambda routine, backend: None)}
+                                   for nm in case["derived_none"]]
+    res = compile_routine(to_qref(case["routine"]), **kw)
     tree = walk_compiled(res.routine, flags)
     return {"tree": tree, "inexact": flags["inexact"]}
 
@@ -632,7 +637,15 @@ def impl_roundtrip(case):
     from bartiq import sympy_backend as B
 
     try:
-        e = B.as_expression(to_str(case["expr"])) if "expr" in case else B.as_expression(case["text"])
+        if "seq" in case:
+            q = case["seq"]
+            build = B.sequence_sum if q["kind"] == "sum" else B.sequence_prod
+            e = build(B.as_expression(to_str(q["term"])), B.as_expression(q["it"]), B.as_expression(to_str(q["lo"])),
+                      B.as_expression(to_str(q["hi"])))
+            if case.get("plus"):
+                e = e + B.as_expression(case["plus"])
+        else:
+            e = B.as_expression(to_str(case["expr"])) if "expr" in case else B.as_expression(case["text"])
         if case.get("assign"):
             # an expression as evaluation produces it: substitute some symbols (rationals / floats) first
             e = B.substitute(e, {k: B.as_expression(v) for k, v in case["assign"].items()})
